@@ -21,7 +21,9 @@ RULE = (
     "documents = all concatenations of <=k fragments of A3 (A0 + parallel, short-form parallel, string cites, "
     "names reused as references). merge history = (document, subset S of its full case citations |S|<=2, "
     "resolved-name assignment per member of S, number of filter passes 1..3). distinct = distinct (tokenizer, text) "
-    "/ distinct history; non-trivial = >=2 citations returned / history that added >=1 reference citation."
+    "/ distinct history; non-trivial = >=2 citations returned / history that added >=1 reference citation. layouts: the real "
+    "filter_citations on every layout of a valid result (<= 2 citations on a grid of 6 (quick) / 7 positions, full spans extended "
+    "left/right) plus <= 2 added reference citations with arbitrary spans."
 )
 ASSUMPTIONS = [
     "finite fragment alphabet and depth bound",
@@ -135,7 +137,101 @@ def run_history(text, tok, hist):
     return out, len(refs)
 
 
+# ---- narrow seam: the real filter_citations on every layout of a valid result plus added references -------------
+_BASE = {}
+
+
+def _base():
+    if not _BASE:
+        cs = dd.get_citations("Foo v. Bar, 1 U.S. 1 (1999). Bar at 9. See 1 U.S. at 5.", tokenizer=tokenizer("AC"))
+        for c in cs:
+            _BASE[{"FullCaseCitation": "F", "ReferenceCitation": "R", "ShortCaseCitation": "S"}[type(c).__name__]] = c
+    return _BASE
+
+
+def mk_cit(kind, span, full=None):
+    import copy
+
+    c = copy.copy(_base()[kind])
+    c.token = copy.copy(c.token)
+    c.token.start, c.token.end = span
+    c.span_start, c.span_end = span
+    c.full_span_start, c.full_span_end = full or span
+    return c
+
+
+def layout_results(G):
+    """Valid results (<= 2 citations in increasing, disjoint span order; a full citation's full span may extend to the
+    left/right, as with case names, parallel citations and parentheticals; the second may be a reference)."""
+    spans = [(s, e) for s in range(G + 1) for e in range(s + 1, G + 1)]
+
+    def fulls(sp):
+        s, e = sp
+        return sorted({(a, b) for a in {s, max(s - 1, 0), 0} for b in {e, min(e + 1, G), G}})
+
+    yield []
+    for k1 in "FS":
+        for s1 in spans:
+            for f1 in fulls(s1) if k1 == "F" else [s1]:
+                yield [(k1, s1, f1)]
+                for k2 in "FSR":
+                    for s2 in spans:
+                        if s2[0] < s1[1]:
+                            continue
+                        for f2 in fulls(s2) if k2 == "F" else [s2]:
+                            yield [(k1, s1, f1), (k2, s2, f2)]
+
+
+def check_layout(R, adds):
+    from eyecite.helpers import filter_citations
+
+    objs = [mk_cit(k, tuple(sp), tuple(f)) for k, sp, f in R] + [mk_cit("R", tuple(a)) for a in adds]
+    out = []
+    f1 = filter_citations(list(objs))
+    ids = {id(c) for c in f1}
+    inp = {id(c) for c in objs}
+    for o, (k, sp, f) in zip(objs, R):
+        if k != "R" and id(o) not in ids:
+            out.append(("layout-lost", f"non-reference {k}@{tuple(sp)} dropped"))
+    if any(id(c) not in inp for c in f1):
+        out.append(("layout-invented", "the filter returned an object that was not in its input"))
+    sp = [c.span() for c in f1]
+    if any(a[1] > b[0] or a >= b for a, b in zip(sp, sp[1:])):
+        out.append(("layout-overlap", f"filtered spans {sp} are not increasing and disjoint"))
+    f2 = filter_citations(list(f1))
+    if [id(c) for c in f2] != [id(c) for c in f1]:
+        out.append(("layout-idem", f"second pass changed {sp} to {[c.span() for c in f2]}"))
+    return out
+
+
+def run_layouts(st, sh):
+    p = st.part("layouts")
+    G = sh["G"]
+    spans = [(s, e) for s in range(G + 1) for e in range(s + 1, G + 1)]
+    for R in itertools.islice(layout_results(G), sh["r"], None, sh["n"]):
+        nonref = {tuple(sp) for k, sp, f in R if k != "R"}
+        for nadd in range(1, sh["adds"] + 1):
+            for adds in itertools.combinations_with_replacement(spans, nadd):
+                if any(a in nonref for a in adds):
+                    continue  # a reference never has exactly the span of a non-reference citation
+                st.evaluations += 1
+                st.traces += 1
+                st.transitions += 2
+                p["evaluations"] += 1
+                key = h64(["layout", R, adds])
+                st.states.add(key)
+                res = check_layout(R, adds)
+                if R:
+                    st.nontrivial.add(key)
+                st.outcomes.add(h64([r[0] for r in res]) if res else 0)
+                for lab, det in res:
+                    st.violation({"part": "layouts", "tok": "AC", "R": [list(map(list, (x[1], x[2]))) + [x[0]] for x in R], "adds": [list(a) for a in adds]}, f"{lab}: {det} :: result layout (kind, span, full span)={R} + references at {adds}", label=lab)
+
+
 def replay(case):
+    if case.get("part") == "layouts":
+        R = [(x[2], tuple(x[0]), tuple(x[1])) for x in case["R"]]
+        return [{"msg": f"{lab}: {det} :: layout={R} adds={case['adds']}", "label": lab} for lab, det in check_layout(R, [tuple(a) for a in case["adds"]])]
     if case["tok"] in ("HS", "REF"):
         tokenizer(case["tok"])
     try:
@@ -158,6 +254,8 @@ def shards(tier, seed):
     out += dd.residue_shards("pumped-AC", "pump", "AC", 16)
     for ti in range(len(FE_TEMPLATES)):
         out += dd.residue_shards("fragedit-AC", "fe", "AC", 4 if tier == "quick" else 16, {"t": ti, "edits": 1 if tier == "quick" else 2})
+    for r in range(32):
+        out.append({"part": "layouts", "kind": "layouts", "tok": "AC", "G": 6 if tier == "quick" else 7, "adds": 2, "r": r, "n": 32})
     out += dd.residue_shards("merge-templates", "mt", "AC", 16, {"edits": 1, "chars": "quick" if tier == "quick" else "thorough"})
     return out
 
@@ -214,6 +312,9 @@ def pumped_cases(sh):
 
 def run_shard(sh):
     st = Stats()
+    if sh["kind"] == "layouts":
+        run_layouts(st, sh)
+        return st
     if sh.get("merge"):
         texts = (c["text"] for c in dd.seq_cases(sh, ALPHABETS))
         run_merge(st, sh["part"], texts, sh["tok"])
